@@ -395,12 +395,16 @@ def cmd_run(prop, tier, seed):
                     reproduced |= False
                 else:
                     reproduced |= check in (g["fails"] or [])
-            if exp.get("race") and "WARNING: DATA RACE" in out:
+            # a happens-before obligation (race analysis) is confirmed by the native race detector; other
+            # obligations of the same entry must fail natively themselves
+            rc = exp.get("race_checks")
+            is_race_check = (check in rc) if rc is not None else ("race" in check)
+            if exp.get("race") and is_race_check and "WARNING: DATA RACE" in out:
                 reproduced = True
             rec = dict(property=prop, entry=entry, check=check, model=v["model"], note=v.get("note"), trace=v.get("trace"),
                        sched=v.get("sched"), job=dict(pkg=job["pkg"], gopkg=job["gopkg"], files=job["files"],
                                                       native_now=job.get("native_now", []), yieldify=job.get("yieldify", [])),
-                       native=chunk, reproduced=reproduced, replay=dict(repeat=reps, timeout_ms=exp.get("timeout_ms", 8000), race=bool(exp.get("race"))))
+                       native=chunk, reproduced=reproduced, replay=dict(repeat=reps, timeout_ms=exp.get("timeout_ms", 8000), race=bool(exp.get("race")), race_check=bool(exp.get("race") and is_race_check)))
             h = hashlib.md5(json.dumps([entry, check, v["model"]], sort_keys=True).encode()).hexdigest()[:10]
             path = os.path.join(ROOT, "replays", "%s-%s.json" % (prop, h))
             rec["path"] = path
@@ -496,7 +500,7 @@ def cmd_replay(path):
             ok |= g["timeout"]
         else:
             ok |= rec["check"] in (g["fails"] or [])
-    if rec["replay"].get("race") and "WARNING: DATA RACE" in out:
+    if rec["replay"].get("race_check", rec["replay"].get("race")) and "WARNING: DATA RACE" in out:
         ok = True
     print(json.dumps(got, indent=1))
     print("REPRODUCED" if ok else "NOT REPRODUCED", rec["entry"], rec["check"])
